@@ -47,7 +47,7 @@ int main (int argc, char **argv) {
 	base = argv[1]; name = argv[2]; init = atoi (argv[3]); nact = atoi (argv[4]); episodes = atoi (argv[5]); ops = atoi (argv[6]); procs = atoi (argv[7]); seed = (unsigned) atoi (argv[8]);
 	if (nact > 8) return 2;
 	vtm_init (nact + 1);
-	p_libsys_init ();
+	p_libsys_init (); p_libsys_shutdown (); p_libsys_init ();      /* the library is used after a shutdown / re-initialisation cycle */
 	vtm_open (base, 0);
 	VTM ("\"e\":\"call\",\"p\":9,\"h\":91,\"op\":\"semnew\",\"a\":1,\"b\":%d,\"create\":1", init);
 	sem = p_semaphore_new (name, init, P_SEM_ACCESS_CREATE, NULL);
